@@ -171,6 +171,27 @@ func TestRandom(t *testing.T) {
 	pieces := []string{"//", "/", ":", "...", ".", "..", "a", "b", "ab", "all", "test", "x_test", "-", "_", "A", "0", " ", "é", "a/b", "//a", ":a", "/...", ":all", ":..."}
 	s := spec
 	s.Gen = func(t *rapid.T) Case {
+		curs := []string{"", "a", "a/b", "ab", "a.b", ".a", ".ci/tools", "..a", "./a", "a/.b"}
+		if rapid.IntRange(0, 2).Draw(t, "structured") == 0 {
+			// well-formed labels and patterns assembled from the grammar, with target names that coincide with package
+			// segments (//a/b:b, //a/...:a): the shorthand and the recursive forms meet there
+			segs := []string{"a", "b", "ab"}
+			var pkg []string
+			for i := rapid.IntRange(0, 3).Draw(t, "nsegs"); i > 0; i-- {
+				pkg = append(pkg, rapid.SampledFrom(segs).Draw(t, "seg"))
+			}
+			name := rapid.SampledFrom([]string{"a", "b", "ab", "all", "x_test"}).Draw(t, "name")
+			if len(pkg) > 0 && rapid.Bool().Draw(t, "name-is-last-segment") {
+				name = pkg[len(pkg)-1]
+			}
+			path := strings.Join(pkg, "/")
+			form := rapid.SampledFrom([]string{"//P:N", "//P/...", "//P/...:N", "//P:all", "//P", ":N", "P:N", "//...:N", "//..."}).Draw(t, "form")
+			if path == "" {
+				form = strings.ReplaceAll(form, "P/", "")
+			}
+			str := strings.NewReplacer("P", path, "N", name).Replace(form)
+			return Case{Cur: rapid.SampledFrom(curs).Draw(t, "cur"), S: str}
+		}
 		n := rapid.IntRange(0, 9).Draw(t, "n")
 		var b strings.Builder
 		if rapid.IntRange(0, 3).Draw(t, "abs") > 0 {
